@@ -250,14 +250,63 @@ class Unit:
         ev.oblige("L.step", z3.ForAll([a, b], step), st, "induction step of: %s is non-decreasing" % name)
         st.assume(z3.ForAll([a, b], z3.Implies(z3.And(0 <= a, a <= b, b <= n), S(a) <= S(b)), patterns=[z3.MultiPattern(S(a), S(b))]))
 
-    # ---- calls (modular)
+    # ---- calls (modular: the callee's contract, never its body)
     def handle_call(self, ev, e, st):
         name = e[1]
-        cname = self.c.calls.get(name, name)
-        cc = self.contracts.get(cname)
-        if cc is None:
+        ent = self.contracts.get(self.c.calls.get(name, name))
+        if ent is None:
             raise EvalError("call to %s without a contract" % name)
-        return cc.apply_call(self, e, st)
+        cc, cfunc = ent
+        args = e[2]
+        if len(args) != len(cfunc["params"]):
+            raise EvalError("call to %s: arity mismatch" % name)
+        cst = State()          # callee's view, before the call
+        post_updates = []
+        for (pn, pt), a in zip(cfunc["params"], args):
+            if pt.startswith("p:"):
+                if a[0] == "addr" and a[1][0] == "v" and a[1][1] in st.vars:
+                    x = a[1][1]
+                    ety = unconst(pt[2:])
+                    arr0 = z3.K(z3.IntSort(), z3.IntVal(0))
+                    cst.arrs[pn] = z3.Store(arr0, 0, to_int(st.vars[x]))
+                    post_updates.append(("local", pn, x))
+                else:
+                    v = ev.ev(a, st)
+                    if v.k != "ptr" or v.arr not in st.arrs or not (z3.is_int_value(v.t) and v.t.as_long() == 0):
+                        raise EvalError("call to %s: unsupported pointer argument" % name)
+                    cst.arrs[pn] = st.arrs[v.arr]
+                    if not pt.startswith("p:c:"):
+                        post_updates.append(("array", pn, v.arr))
+            else:
+                v = ev.ev(a, st)
+                cst.vars[pn] = ev.coerce(v, unconst(pt)) if v.k != "ptr" else v
+                cst.types[pn] = unconst(pt)
+        cinit = cst.fork()
+        cse = spec.SpecEval(spec.Ghosts(), self.consts)
+        for g, (params, body) in cc.ghost.items():
+            cse.ghosts.declare(g, params, body)
+        for src in cc.requires:
+            ev.oblige("C.pre", cse.boolean(src, cinit, init=cinit), st, "precondition of callee %s: %s" % (name, src))
+        # havoc what the callee may write, then assume its postcondition
+        for kind, pn, target in post_updates:
+            if kind == "local":
+                fresh = ev.fresh("%s_after_%s" % (target, name))
+                cst.arrs[pn] = z3.Store(cst.arrs[pn], 0, fresh)
+            else:
+                cst.arrs[pn] = ev.fresh("%s_after_%s" % (target, name), ev.arr_sort(target))
+        for src in list(cc.ensures) + list(cc.ensures_ok):
+            st.assume(cse.boolean(src, cst, init=cinit))
+        for kind, pn, target in post_updates:
+            if kind == "local":
+                t = z3.Select(cst.arrs[pn], 0)
+                old = st.vars[target]
+                st.vars[target] = Val(t, "int")
+                ty = st.types.get(target)
+                if ty:
+                    ev.range_fact(t, ty, st)
+            else:
+                st.arrs[target] = cst.arrs[pn]
+        return Val(IV(0), "opaque")
 
     # ---- statements
     def run(self):
@@ -334,7 +383,13 @@ class Unit:
             if not nxt:
                 cur = []
                 break
-            cur = [merge_states(nxt)] if len(nxt) > 1 else nxt
+            if len(nxt) > 1:
+                try:
+                    cur = [merge_states(nxt)]
+                except EvalError:
+                    cur = nxt        # states that cannot be joined (e.g. a buffer reallocated on one path) stay separate
+            else:
+                cur = nxt
         return [("fall", c) for c in cur] + done
 
     def stmt(self, s, st):
